@@ -187,7 +187,7 @@ def _antennas(draw, tier):
 def _signal(tier):
     return st.fixed_dictionaries(dict(
         kind=st.sampled_from(["randn", "randn", "randn", "impulse", "ones",
-                              "int"]),
+                              "int", "c64", "f32"]),
         seed=seeds, amp=st.sampled_from([1.0, 1.0, 1e-3, 1e3])))
 
 
@@ -494,6 +494,13 @@ def _make_signal(sig, shape, variant):
         x = np.ones(shape) * sig["amp"]
     elif kind == "int":
         x = rs.randint(0, 10, shape)
+    elif kind == "c64":
+        # single-precision samples (what a file of recorded IQ data holds);
+        # the values are exact in double precision too
+        x = ((rs.standard_normal(shape) + 1j * rs.standard_normal(shape))
+             * sig["amp"]).astype(np.complex64)
+    elif kind == "f32":
+        x = (rs.standard_normal(shape) * sig["amp"]).astype(np.float32)
     else:  # impulse: one non-zero sample per row
         x = np.zeros(shape, dtype=complex)
         flat = x.reshape(-1, shape[-1])
@@ -735,7 +742,8 @@ def _run_single(case, variant):
                 x1 = _make_signal(op["sig"], shape, 0)
                 x = x1 if variant == 0 else _make_signal(op["sig"], shape, 1)
                 if variant == 2:
-                    x = al * x1 + be * x
+                    x = al * np.asarray(x1, dtype=complex) + \
+                    be * np.asarray(x, dtype=complex)
             y = _tagged(tags, link.ch.corrupt_data, x)
             link.pos += n
         else:
@@ -747,7 +755,8 @@ def _run_single(case, variant):
             x1 = _make_signal(op["sig"], shape, 0)
             x = x1 if variant == 0 else _make_signal(op["sig"], shape, 1)
             if variant == 2:
-                x = al * x1 + be * x
+                x = al * np.asarray(x1, dtype=complex) + \
+                    be * np.asarray(x, dtype=complex)
             y = _tagged(tags, link.ch.corrupt_data_in_freq_domain, x, fft,
                         _sel_obj(op["sel"]))
             link.pos += fft * op["nb"]
@@ -970,7 +979,8 @@ def _run_mu(case, variant):
         x1 = _make_signal(op["sig"], shape, 0)
         x = x1 if variant == 0 else _make_signal(op["sig"], shape, 1)
         if variant == 2:
-            x = al * x1 + be * x
+            x = al * np.asarray(x1, dtype=complex) + \
+                    be * np.asarray(x, dtype=complex)
         if op["op"] == "time":
             y = _tagged(tags, ch.corrupt_data, x)
         else:
